@@ -37,6 +37,11 @@ type channel struct {
 	// function and then kept in the array, "cuf" kept in the array and invoked by call_user_func.
 	// A temp VM invokes it; its body must resolve (and define) through the invoking VM.
 	Store string
+	// Prop: the observation is the VALUE of the class's static property $n. Values are unique
+	// (initial value = the definition's serial, every write stores a fresh number), so a value
+	// identifies the definition(s) that may hold it. Put: the helper WRITES a fresh number.
+	Prop bool
+	Put  bool
 }
 
 var channels = []channel{
@@ -54,6 +59,7 @@ var channels = []channel{
 	{Name: "s.newv", Kind: 'c', Identity: true, Group: 's', Snippet: "$c='K%s';$o=new $c();$r=$o->id();"},
 	{Name: "s.static", Kind: 'c', Identity: true, Group: 's', Snippet: "$r=K%s::sid();"},
 	{Name: "s.kconst", Kind: 'c', Identity: true, Group: 's', Snippet: "$r=K%s::KID;"},
+	{Name: "s.sprop", Kind: 'c', Identity: true, Prop: true, Group: 's', Snippet: "$r=K%s::$n;"},
 	{Name: "s.iex", Kind: 'i', Group: 's', Snippet: "$r=interface_exists('I%s')?'Y':'N';"},
 	{Name: "s.iconst", Kind: 'i', Identity: true, Group: 's', Snippet: "$r=I%s::IID;"},
 	{Name: "s.fex", Kind: 'f', Group: 's', Snippet: "$r=function_exists('f%s')?'Y':'N';"},
@@ -65,6 +71,8 @@ var channels = []channel{
 	{Name: "t.static", Kind: 'c', Identity: true, Group: 't', Body: "return K%s::sid();"},
 	{Name: "t.kconst", Kind: 'c', Identity: true, Group: 't', Body: "return K%s::KID;"},
 	{Name: "m.new", Kind: 'c', Identity: true, Group: 't', Body: "$o = new K%s(); return $o->id();"},
+	{Name: "t.sput", Kind: 'c', Identity: true, Prop: true, Put: true, Group: 't', Body: "K%s::$n = $v; return 'S';"},
+	{Name: "t.sprop", Kind: 'c', Identity: true, Prop: true, Group: 't', Body: "return K%s::$n;"},
 	{Name: "t.iex", Kind: 'i', Group: 't', Body: "return interface_exists('I%s') ? 'Y' : 'N';"},
 	{Name: "t.iconst", Kind: 'i', Identity: true, Group: 't', Body: "return I%s::IID;"},
 	{Name: "t.fex", Kind: 'f', Group: 't', Body: "return function_exists('f%s') ? 'Y' : 'N';"},
@@ -90,7 +98,12 @@ func (c channel) helperRef(letter string) string {
 	return "c12t_" + short + "_" + letter + "()"
 }
 
-func (c channel) snippet(letter string) string {
+func (c channel) snippet(letter string) string { return c.snippetW(letter, 0) }
+
+func (c channel) snippetW(letter string, w int) string {
+	if c.Put {
+		return "$r=c12t_" + c.Name[2:] + "_" + letter + "(" + strconv.Itoa(w) + ");"
+	}
 	if c.Store != "" {
 		key := c.Name[2:] + "_" + letter
 		switch c.Store {
@@ -109,7 +122,7 @@ func (c channel) snippet(letter string) string {
 
 // features that a known finding may quarantine: every helper channel, plus "noprep"
 func quarantinable() []string {
-	out := []string{"noprep"}
+	out := []string{"noprep", "autoload.c", "autoload.i"}
 	for _, c := range channels {
 		if c.Group == 't' {
 			out = append(out, c.Name)
@@ -121,7 +134,7 @@ func quarantinable() []string {
 // prelude is the code loaded on the base VM before the history starts: neutral parents and
 // the persistent helpers. The helpers are parsed while no pool name exists anywhere, so every
 // reference inside them is resolved when they run, through the VM of the running code.
-func prelude(names int, off map[string]bool, dir string) string {
+func prelude(names int, off map[string]bool) string {
 	var sb strings.Builder
 	sb.WriteString("<?php\nclass C12Base { public function base0() { return 0; } }\ninterface C12IBase { }\n")
 	var methods, props, closures strings.Builder
@@ -143,27 +156,43 @@ func prelude(names int, off map[string]bool, dir string) string {
 				fmt.Fprintf(&closures, "C12Hub::$cbs['%s'] = function() { %s };\n", key, body)
 			case c.Name[0] == 'm':
 				fmt.Fprintf(&methods, "  public static function %s() { %s }\n", key, body)
+			case c.Put:
+				fmt.Fprintf(&sb, "function c12t_%s($v) { %s }\n", key, body)
 			default:
 				fmt.Fprintf(&sb, "function c12t_%s() { %s }\n", key, body)
 			}
 		}
 	}
 	sb.WriteString("class C12T {\n" + methods.String() + "}\n")
-	sb.WriteString("class C12Hub {\n  public static $cbs = [];\n" + props.String() + "}\n")
+	sb.WriteString("class C12Hub {\n  public static $cbs = [];\n  public static $auto = [];\n" + props.String() + "}\n")
 	sb.WriteString(closures.String())
-	// definition routes through base-created closures: include from inside a closure, and a
-	// function declared by the closure body (one file per name so that the declaration's source
-	// path carries the shared serial 9000+n)
+	// definition route through a base-created closure: include from inside the closure. (The
+	// closures whose body declares a function are created by loadDeclClosures.)
 	sb.WriteString("C12Hub::$cbs['inc'] = function($p) { include $p; return 1; };\n")
-	for n := 0; n < names; n++ {
-		sb.WriteString("include '" + filepath.Join(dir, fmt.Sprintf("def_%d.php", sharedSerial(n))) + "';\n")
-	}
+	// definition route "autoload": a callback registered on the base VM (temp VMs use the base
+	// VM's callback list) includes the file the harness points it to for the duration of one look-up
+	sb.WriteString("C12Hub::$cbs['auto'] = function($c) { $p = C12Hub::$auto[$c] ?? ''; if ($p != '') { include $p; } };\nspl_autoload_register(C12Hub::$cbs['auto']);\n")
 	return sb.String()
 }
 
 func sharedSerial(name int) int { return 9000 + name }
 
-// declClosureFile is the file that creates (on the base VM) the closure whose body declares f<name>.
+// loadDeclClosures creates, on the base VM, one closure per name whose body declares f<name>.
+// Each is parsed under its own path def_<9000+n>.php so that the declaration's source carries
+// the shared serial. Not loaded by `include`: node/include_statement.go keeps the value an
+// included file evaluates to in a process-wide cache keyed by path, and that value would be a
+// closure that references the whole base VM of the case (the worker's heap then grows by one
+// VM per case and every forced collection gets slower).
+func (x *executor) loadDeclClosures() string {
+	for n := 0; n < x.c.Names; n++ {
+		if _, et := x.runScript(0, declClosureFile(n), filepath.Join(x.dir, fmt.Sprintf("def_%d.php", sharedSerial(n)))); et != "" {
+			return et
+		}
+	}
+	return ""
+}
+
+// declClosureFile is the source that creates (on the base VM) the closure whose body declares f<name>.
 func declClosureFile(name int) string {
 	l := nameLetter(name)
 	return "<?php\nC12Hub::$cbs['decl_" + l + "'] = function() { function f" + l + "() { return " + strconv.Itoa(sharedSerial(name)) + "; } return 1; };\n"
@@ -175,6 +204,8 @@ const (
 	routeInclude            // include of a unique file from a fresh script on the VM
 	routeClosureInc         // include of a unique file from inside a base-created closure invoked on the VM
 	routeClosureDecl        // function declared by the body of a base-created closure invoked on the VM
+	routeAutoload           // an autoload callback registered on the base VM includes the file when the VM looks the name up
+	routeEval               // eval('<definition>') from a fresh script on the VM; may be refused (then nothing is defined)
 )
 
 func defSource(dk byte, name, variant, serial int) (src string, route int) {
@@ -182,7 +213,7 @@ func defSource(dk byte, name, variant, serial int) (src string, route int) {
 	s := strconv.Itoa(serial)
 	switch dk {
 	case 'c':
-		body := " { const KID = " + s + "; public function id() { return " + s + "; } public static function sid() { return " + s + "; } }"
+		body := " { const KID = " + s + "; public static $n = " + s + "; public function id() { return " + s + "; } public static function sid() { return " + s + "; } }"
 		switch variant {
 		case 1:
 			return "<?php\nclass K" + l + " extends C12Base" + body + "\n", routeDirect
@@ -194,6 +225,10 @@ func defSource(dk byte, name, variant, serial int) (src string, route int) {
 			return "<?php\nfinal class K" + l + body + "\n", routeDirect
 		case 5:
 			return "<?php\nclass K" + l + body + "\n", routeClosureInc
+		case 6:
+			return "<?php\nclass K" + l + body + "\n", routeEval
+		case 7:
+			return "<?php\nclass K" + l + body + "\n", routeAutoload
 		}
 		return "<?php\nclass K" + l + body + "\n", routeDirect
 	case 'i':
@@ -205,6 +240,10 @@ func defSource(dk byte, name, variant, serial int) (src string, route int) {
 			return "<?php\ninterface I" + l + body + "\n", routeInclude
 		case 3:
 			return "<?php\ninterface I" + l + body + "\n", routeClosureInc
+		case 4:
+			return "<?php\ninterface I" + l + body + "\n", routeEval
+		case 5:
+			return "<?php\ninterface I" + l + body + "\n", routeAutoload
 		}
 		return "<?php\ninterface I" + l + body + "\n", routeDirect
 	default:
@@ -217,6 +256,8 @@ func defSource(dk byte, name, variant, serial int) (src string, route int) {
 			return "<?php\nfunction f" + l + "() { return " + s + "; }\n", routeClosureInc
 		case 4:
 			return declClosureFile(name), routeClosureDecl
+		case 5:
+			return "<?php\nfunction f" + l + "() { return " + s + "; }\n", routeEval
 		}
 		return "<?php\nfunction f" + l + "() { return " + s + "; }\n", routeDirect
 	}
@@ -243,27 +284,29 @@ type caseResult struct {
 }
 
 type executor struct {
-	c       Case
-	off     map[string]bool // quarantined features
-	dir     string          // scratch directory (definition files for the include route)
-	base    *runtime.VM
-	bp      *parser.Parser
-	temps   []*runtime.TempVM // index 1..
-	m       *Model
-	out     strings.Builder
-	unc     data.Control
-	prev    map[string]string // vm|chan|name -> last observed value
-	res     *caseResult
-	seen    map[string]bool
-	step    int
-	curOp   string
-	defined map[int]bool     // names defined by some VM so far
-	dead    map[uintptr]bool // addresses of the TempVMs this history discarded (numbers only, no references)
-	trace   []string         // human-readable log (filled only when verbose)
-	verb    bool
+	c         Case
+	off       map[string]bool // quarantined features
+	dir       string          // scratch directory (definition files for the include route)
+	base      *runtime.VM
+	bp        *parser.Parser
+	temps     []*runtime.TempVM // index 1..
+	m         *Model
+	out       strings.Builder
+	unc       data.Control
+	prev      map[string]string // vm|chan|name -> last observed value
+	res       *caseResult
+	seen      map[string]bool
+	step      int
+	curOp     string
+	defined   map[int]bool     // names defined by some VM so far
+	valOwners map[string][]int // static-property value -> definitions that may hold it
+	wseq      int
+	dead      map[uintptr]bool // addresses of the TempVMs this history discarded (numbers only, no references)
+	trace     []string         // human-readable log (filled only when verbose)
+	verb      bool
 }
 
-var serialRe = regexp.MustCompile(`def_(\d+)\.php$`)
+var serialRe = regexp.MustCompile(`def_(\d+)\.php`)
 
 func serialOf(v any) string {
 	g, ok := v.(interface{ GetFrom() data.From })
@@ -546,14 +589,20 @@ func (x *executor) observeScript(vm int, chs []channel, names []int, related fun
 	type cell struct {
 		ch channel
 		n  int
+		w  int
 	}
 	var cells []cell
 	var sb strings.Builder
 	sb.WriteString("<?php\n")
 	for _, n := range names {
 		for _, ch := range chs {
-			cells = append(cells, cell{ch, n})
-			sb.WriteString(cellSource(ch, n))
+			w := 0
+			if ch.Put {
+				x.wseq++
+				w = 100000 + x.wseq
+			}
+			cells = append(cells, cell{ch, n, w})
+			sb.WriteString(cellSourceW(ch, n, w))
 		}
 	}
 	parse := func(out string) map[string]string {
@@ -571,7 +620,7 @@ func (x *executor) observeScript(vm int, chs []channel, names []int, related fun
 		// cell by cell
 		got = map[string]string{}
 		for _, c := range cells {
-			src := "<?php\n" + cellSource(c.ch, c.n)
+			src := "<?php\n" + cellSourceW(c.ch, c.n, c.w)
 			o, et := x.runScript(vm, src, filepath.Join(x.dir, "probe1.php"))
 			k := c.ch.Name + ":" + nameLetter(c.n)
 			if v, ok := parse(o)[k]; ok && et == "" {
@@ -586,15 +635,70 @@ func (x *executor) observeScript(vm int, chs []channel, names []int, related fun
 		if val == "E" {
 			val = "-"
 		}
+		if c.ch.Prop {
+			x.judgeProp(vm, c.ch, c.n, val, c.w)
+			continue
+		}
 		x.judge(vm, c.ch, c.n, val, related(vm, c.ch.Kind, c.n))
 	}
 }
 
+// judgeProp judges the static-property channels. A read must show a value held by a definition
+// visible on that VM; a write through base-defined code must fail where no definition is
+// visible and otherwise lands in one of the visible definitions (recorded for later reads).
+func (x *executor) judgeProp(vm int, ch channel, name int, val string, w int) {
+	x.res.Cells++
+	cands := x.m.Candidates(vm, 'c', name)
+	desc := fmt.Sprintf("%s of K%s on %s", ch.Name, nameLetter(name), vmName(vm))
+	if ch.Put {
+		switch {
+		case val == "S" && len(cands) == 0:
+			x.valOwners[strconv.Itoa(w)] = nil
+			x.violation(fmt.Sprintf("leak/%s/into-%s", ch.Name, side(vm)),
+				fmt.Sprintf("%s: the write K%s::$n = %d made by base-defined code succeeded although no definition of K%s is visible there (it was stored into some other VM's class)", desc, nameLetter(name), w, nameLetter(name)))
+		case val == "S":
+			x.valOwners[strconv.Itoa(w)] = append([]int(nil), cands...)
+		case len(cands) > 0:
+			x.violation(fmt.Sprintf("lost/%s/%s/holder-%s", ch.Name, side(vm), x.holder(vm, 'c', name)),
+				fmt.Sprintf("%s: the write failed (%q) although visible definitions are %v", desc, val, x.describe(cands)))
+		}
+		return
+	}
+	if _, err := strconv.Atoi(val); err != nil {
+		if len(cands) > 0 {
+			x.violation(fmt.Sprintf("lost/%s/%s/holder-%s", ch.Name, side(vm), x.holder(vm, 'c', name)),
+				fmt.Sprintf("%s did not resolve (got %q) although visible definitions are %v", desc, val, x.describe(cands)))
+		}
+		return
+	}
+	owners, known := x.valOwners[val]
+	if !known {
+		if s, err := strconv.Atoi(val); err == nil && x.m.Owner[s] != "" {
+			owners = []int{s} // initial value = serial of the definition
+		}
+	}
+	for _, o := range owners {
+		for _, c := range cands {
+			if o == c {
+				return
+			}
+		}
+	}
+	owner := "an unknown definition"
+	if len(owners) > 0 {
+		owner = fmt.Sprintf("definition #%d owned by %s", owners[0], x.m.Owner[owners[0]])
+	}
+	x.violation(fmt.Sprintf("leak/%s/into-%s", ch.Name, side(vm)),
+		fmt.Sprintf("%s read the value %s, which is held by %s; visible definitions are %v", desc, val, owner, x.describe(cands)))
+}
+
 // cellSource is the code that evaluates one channel for one name and prints "<chan>:<name>=<value>".
 // Kept compact: origami's lexer is slow per character and these scripts dominate the run time.
-func cellSource(ch channel, n int) string {
+func cellSource(ch channel, n int) string { return cellSourceW(ch, n, 0) }
+
+func cellSourceW(ch channel, n int, w int) string {
 	l := nameLetter(n)
-	return "try{" + ch.snippet(l) + "}catch(\\Throwable $e){$r='E';}echo '" + ch.Name + ":" + l + "='.$r.\"\\n\";\n"
+	return "try{" + ch.snippetW(l, w) + "}catch(\\Throwable $e){$r='E';}echo '" + ch.Name + ":" + l + "='.$r.\"\\n\";\n"
 }
 
 func (x *executor) chans(group byte, filter func(channel) bool) []channel {
@@ -688,8 +792,19 @@ func runCase(c Case, off map[string]bool, dir string, verbose bool) (res caseRes
 		}
 		off = caseOff
 	}
-	x := &executor{c: c, off: off, dir: dir, m: NewModel(c.Temps), prev: map[string]string{}, res: &res, seen: map[string]bool{}, verb: verbose, defined: map[int]bool{}, dead: map[uintptr]bool{}}
+	x := &executor{c: c, off: off, dir: dir, m: NewModel(c.Temps), prev: map[string]string{}, res: &res, seen: map[string]bool{}, verb: verbose, defined: map[int]bool{}, dead: map[uintptr]bool{}, valOwners: map[string][]int{}}
 	defer func() { trace = x.trace }()
+	defer func() {
+		// the autoload list is process-wide (and keeps the callback's whole base VM alive): leave
+		// nothing of this case behind. Done from a script so that the harness does not depend on
+		// the Go signature of runtime.RemoveAutoLoad.
+		if x.base != nil && x.bp != nil {
+			func() {
+				defer func() { _ = recover() }()
+				x.runScript(0, "<?php\nspl_autoload_unregister(C12Hub::$cbs['auto']);\n", filepath.Join(dir, "unreg.php"))
+			}()
+		}
+	}()
 	guard := func(what string, f func()) (ok bool) {
 		defer func() {
 			if r := recover(); r != nil {
@@ -713,13 +828,11 @@ func runCase(c Case, off map[string]bool, dir string, verbose bool) (res caseRes
 		x.base, x.bp = ori.NewVM()
 		x.base.SetThrowControl(func(acl data.Control) { x.unc = acl })
 		x.temps = make([]*runtime.TempVM, c.Temps+1)
-		for n := 0; n < c.Names; n++ {
-			if err := os.WriteFile(filepath.Join(dir, fmt.Sprintf("def_%d.php", sharedSerial(n))), []byte(declClosureFile(n)), 0o644); err != nil {
-				x.res.Aborted = "cannot write closure file: " + err.Error()
-				return
-			}
+		if _, et := x.runScript(0, prelude(c.Names, off), filepath.Join(dir, "prelude.php")); et != "" {
+			x.res.Aborted = "prelude failed: " + et
+			return
 		}
-		if _, et := x.runScript(0, prelude(c.Names, off, dir), filepath.Join(dir, "prelude.php")); et != "" {
+		if et := x.loadDeclClosures(); et != "" {
 			x.res.Aborted = "prelude failed: " + et
 			return
 		}
@@ -772,7 +885,13 @@ func runCase(c Case, off map[string]bool, dir string, verbose bool) (res caseRes
 					x.res.Aborted = "case redefines a base name (generator error)"
 					return
 				}
-				_, route := defSource(o.DK, o.Name, o.Var, 0)
+				variant := o.Var
+				_, route := defSource(o.DK, o.Name, variant, 0)
+				if route == routeAutoload && (len(x.m.Candidates(o.VM, o.DK, o.Name)) > 0 || x.off["autoload."+string(o.DK)]) {
+					// the look-up would succeed without loading anything: define directly instead
+					variant = 0
+					route = routeDirect
+				}
 				var serial int
 				if route == routeClosureDecl {
 					// the declaration is one AST shared by every VM that runs the closure
@@ -784,9 +903,9 @@ func runCase(c Case, off map[string]bool, dir string, verbose bool) (res caseRes
 				if o.VM != 0 {
 					x.res.TempDefs++
 				}
-				src, _ := defSource(o.DK, o.Name, o.Var, serial)
+				src, _ := defSource(o.DK, o.Name, variant, serial)
 				path := filepath.Join(dir, fmt.Sprintf("def_%d.php", serial))
-				if route == routeInclude || route == routeClosureInc {
+				if route == routeInclude || route == routeClosureInc || route == routeAutoload {
 					if err := os.WriteFile(path, []byte(src), 0o644); err != nil {
 						x.res.Aborted = "cannot write definition file: " + err.Error()
 						return
@@ -801,6 +920,57 @@ func runCase(c Case, off map[string]bool, dir string, verbose bool) (res caseRes
 					_, et = x.runScript(o.VM, "<?php\n$f=C12Hub::$cbs['inc'];$f('"+path+"');\n", runner)
 				case routeClosureDecl:
 					_, et = x.runScript(o.VM, "<?php\n$f=C12Hub::$cbs['decl_"+nameLetter(o.Name)+"'];$f();\n", runner)
+				case routeAutoload:
+					nm := string(kindPrefix(o.DK)) + nameLetter(o.Name)
+					look := "class_exists"
+					if o.DK == 'i' {
+						look = "interface_exists"
+					}
+					var out string
+					out, et = x.runScript(o.VM, "<?php\nC12Hub::$auto['"+nm+"'] = '"+path+"';\n$r = "+look+"('"+nm+"') ? 'OK' : 'ERR';\nC12Hub::$auto['"+nm+"'] = '';\necho $r;\n", runner)
+					if et != "" || !strings.Contains(out, "OK") {
+						// the callback did not load it (not this property's business): nothing defined
+						x.m.Undo(o.VM, o.DK, o.Name, serial)
+						if o.VM != 0 {
+							x.res.TempDefs--
+						}
+						if verbose {
+							x.trace = append(x.trace, fmt.Sprintf("  autoload did not define it (%q %s)", out, et))
+						}
+						et = ""
+					} else if o.VM != 0 {
+						// where did it land? (asked directly so that one defect gives one key, not one per channel)
+						var landed any
+						if o.DK == 'i' {
+							if c, ok := x.base.GetInterface(nm); ok && c != nil {
+								landed = c
+							}
+						} else if c, ok := x.base.GetClass(nm); ok && c != nil {
+							landed = c
+						}
+						if landed != nil && serialOf(landed) == strconv.Itoa(serial) {
+							x.violation(fmt.Sprintf("leak/route.autoload.%c/into-base", o.DK),
+								fmt.Sprintf("%s defined by an autoload callback during a look-up made through %s was registered on the BASE VM (visible to base and every temp VM)", nm, vmName(o.VM)))
+							x.res.Aborted = "autoloaded definition landed on the base VM"
+							return
+						}
+					}
+				case routeEval:
+					// eval() may be refused on a VM (HEAD refuses it on a TempVM): then nothing was
+					// defined and the model forgets the attempt. If it reports success the
+					// definition must be where every other definition made through this VM is.
+					var out string
+					out, et = x.runScript(o.VM, "<?php\ntry { eval('"+strings.TrimPrefix(src, "<?php\n")+"'); echo 'OK'; } catch (\\Throwable $e) { echo 'ERR'; }\n", path)
+					if et != "" || !strings.Contains(out, "OK") {
+						x.m.Undo(o.VM, o.DK, o.Name, serial)
+						if o.VM != 0 {
+							x.res.TempDefs--
+						}
+						et = ""
+						if verbose {
+							x.trace = append(x.trace, fmt.Sprintf("  eval refused (%q): nothing defined", out))
+						}
+					}
 				default:
 					_, et = x.runScript(o.VM, src, path)
 				}
